@@ -18,7 +18,7 @@ for d in sorted(x for x in os.listdir('.') if os.path.isfile(x+'/meta.json')):
     rows.append(f"| {d} | {m.get('property','')} | {m.get('confirmed',True)} | {cell(m.get('summary'),200)} | {cell(m.get('needs_to_manifest'),160)} | {sig} | {res} |")
 out=f"""# Seeded changes
 
-Each directory holds patch.diff, the demonstration test written by the independent sub-agent, meta.json (what it breaks, what it needs to manifest, what was run when it was filed; `check_result` there is the outcome with the machinery of that moment) and result.json (outcome of `tools/retest_seeds.sh` with the machinery as committed, /repo at `{head}`). Suffix -a: first round (one change per property), -b/-c/-d: second round, -e/-f/-g: third round (hold-out), -h/-i/-j: fourth round ("subtler" prompt), -k/-l/-m: fifth round, -n/-o/-p: sixth round ("two cooperating sites" prompt, 12 properties), -q/-r/-s: seventh round (the other 8 properties), -t/-u: eighth round (two changes per property from 14 agents under a 20-minute budget, prompt widened to shared helpers and unusual-but-valid inputs).
+Each directory holds patch.diff, the demonstration test written by the independent sub-agent, meta.json (what it breaks, what it needs to manifest, what was run when it was filed; `check_result` there is the outcome with the machinery of that moment) and result.json (outcome of `tools/retest_seeds.sh` with the machinery as committed, /repo at `{head}`). Suffix -a: first round (one change per property), -b/-c/-d: second round, -e/-f/-g: third round (hold-out), -h/-i/-j: fourth round ("subtler" prompt), -k/-l/-m: fifth round, -n/-o/-p: sixth round ("two cooperating sites" prompt, 12 properties), -q/-r/-s: seventh round (the other 8 properties), -t/-u: eighth round (two changes per property from 20 agents under a 12-20-minute budget, prompt widened to shared helpers and unusual-but-valid inputs).
 
 {tot} seeded changes: {own} caught by the quick check of their own property, {cross} only by the quick check of another property, {len(und)} by none ({', '.join(und)}; see DESIGN.md section 8).
 
